@@ -9,7 +9,6 @@
 //! `Free`       – documentation silent: only the relational oracles (O2, O4) apply.
 //! The reference never demands more than the cited sentence says (see the `// DOC:` comments).
 use crate::grid::*;
-use arrow_buffer::i256;
 use arrow_schema::{DataType, IntervalUnit, TimeUnit};
 use half::f16;
 use num_bigint::{BigInt, Sign};
@@ -696,9 +695,4 @@ fn elementwise(x: &DataType, y: &DataType, items: &[V]) -> Exp {
     } else {
         Exp::Exact(V::L(out))
     }
-}
-
-/// i256 helper for alphabets
-pub fn dec_v(b: &BigInt) -> V {
-    V::D(big_to_i256(b).unwrap_or(i256::ZERO))
 }
